@@ -584,6 +584,10 @@ class ReplaceWiresAndVariables(ast.NodeTransformer):
 
     def visit_Attribute(self, node):
         
+        if not (isinstance(node.value, ast.Name) and node.value.id == 'self'):
+            # self.w.value, self.sub.x, other.x ...: only the last component would be looked at
+            raise TranspilationException('Only self.<name> attributes are supported: {}'.format(ast.unparse(node)))
+        
         name = node.attr
         if (name in self.ports.keys()):
             return VerilogWire(name)
